@@ -706,9 +706,45 @@ HasRoom(h, k) ==
 Quiet(h, k) == {j \in 1..Len(h.reqs) : j # k /\ h.reqs[j].ep = h.epoch /\ h.reqs[j].ph # "done"
                                           /\ h.reqs[j].st # "ref"} = {}
 
+\* C14 / C12: "too large" is only a reason to refuse while the CONNACK of THIS connection sets a limit, and
+\* (for a publish, whose encoding the observer reproduces) only when the packet is longer than that limit.
+\* Limits below five bytes are left out: there the refusal may stem from an acknowledgement that has to be
+\* flushed first.
+LargeUnjustified(h, o, r) ==
+  /\ r.k = "err" /\ r.v = "PacketTooLarge" /\ h.ack.have
+  /\ \/ h.ack.maxpkt < 0
+     \/ /\ h.ack.maxpkt >= 5 /\ o.name = "publish" /\ ~ArgsInvalid(o)
+        /\ Len(EncPublish(1, 0, 0, o.e.topic, 1, WireProps(o.e), o.e.payload)) <= h.ack.maxpkt
+\* Known finding D12: a PUBLISH / SUBSCRIBE / UNSUBSCRIBE accepted on an earlier connection is longer than the
+\* Maximum Packet Size of this (resumed) connection; it cannot be retransmitted, stays at the head of the
+\* queue, and every later request is refused as too large whatever its own size
+\* (the request may never have reached the wire: a write fault or a cancellation leaves it stored all the same)
+RECURSIVE SumLens(_, _)
+SumLens(seq, extra) == IF seq = << >> THEN 0 ELSE 2 + Len(Head(seq)) + extra + SumLens(Tail(seq), extra)
+FramedLen(n) == 1 + Len(EncVarint(n)) + n
+ReqLen(r) ==
+  IF r.bytes # << >> THEN Len(r.bytes)
+  ELSE IF r.kind \in {"P1", "P2"}
+       THEN Len(EncPublish(1, 0, 0, r.e.topic, 1, WireProps(r.e), r.e.payload))
+  ELSE IF r.kind = "SUB"
+       THEN FramedLen(2 + Len(EncPropBlock(r.e.props)) + SumLens([i \in 1..Len(r.e.filters) |-> r.e.filters[i].topic], 1))
+  ELSE FramedLen(2 + Len(EncPropBlock(r.e.props)) + SumLens(r.e.topics, 0))
+D12Sig(h) ==
+  /\ h.ack.maxpkt >= 0
+  /\ \E j \in 1..Len(h.reqs) :
+        LET q == h.reqs[j] IN
+        /\ q.st \in {"acc", "unk"} /\ q.ep = h.epoch /\ q.ph = "new" /\ q.cc < h.ci /\ q.sc # h.ci
+        /\ ReqLen(q) > h.ack.maxpkt
+LargeCheck(h, o, r) ==
+  IF LargeUnjustified(h, o, r)
+  THEN LET why == "a request was refused as too large although it fits the limit of this connection"
+           a == CheckKF(Tick(h, "C14"), FALSE, "C14", why, "D12", D12Sig(h))
+       IN IF h.ci > 1 THEN CheckKF(a, FALSE, "C12", why, "D12", D12Sig(h)) ELSE a
+  ELSE h
+
 RetRequest(h0, e) ==
   \* publish (QoS > 0) / subscribe / unsubscribe
-  LET h == Tick(h0, "C19")
+  LET h == LargeCheck(Tick(h0, "C19"), h0.op, e.r)
       o == h.op  k == o.req  r == e.r
       inval == ArgsInvalid(o)
       h1 == IF r.k = "err" /\ r.v = "InvalidRequest"
@@ -743,7 +779,7 @@ RetRequest(h0, e) ==
   ELSE [h1 EXCEPT !.reqs[k].st = IF @ = "pend" THEN "unk" ELSE @]
 
 RetQ0(h0, e) ==
-  LET h == Tick(h0, "C19")
+  LET h == LargeCheck(Tick(h0, "C19"), h0.op, e.r)
       o == h.op  r == e.r
       inval == ArgsInvalid(o)
       h1 == IF r.k = "err" /\ r.v = "InvalidRequest"
